@@ -45,6 +45,50 @@ pub unsafe extern "C" fn clock_gettime(clk: libc::clockid_t, ts: *mut libc::time
     libc::syscall(libc::SYS_clock_gettime, clk as libc::c_long, ts) as libc::c_int
 }
 
+// ---------------------------------------------------------------------------
+// Randomness seam: std draws the keys of every `HashMap`'s `RandomState` (once per thread)
+// from `getrandom`, through a weak symbol that exists precisely so that it can be interposed.
+// While a scenario runs, the bytes come from a stream that is a pure function of how many
+// simulated executions the scenario process has started: the iteration order of hash maps in
+// the code under test is then as replayable as everything else, while two executions of one
+// scenario still get different keys (as two real processes would).
+// ---------------------------------------------------------------------------
+
+static RAND_ACTIVE: AtomicBool = AtomicBool::new(false);
+static RAND_STATE: AtomicU64 = AtomicU64::new(0);
+static RAND_EXECS: AtomicU64 = AtomicU64::new(0);
+
+#[no_mangle]
+pub unsafe extern "C" fn getrandom(buf: *mut libc::c_void, len: libc::size_t, flags: libc::c_uint) -> libc::ssize_t {
+    if RAND_ACTIVE.load(Ordering::SeqCst) {
+        let out = std::slice::from_raw_parts_mut(buf as *mut u8, len);
+        for chunk in out.chunks_mut(8) {
+            let mut x = RAND_STATE.fetch_add(0x9E3779B97F4A7C15, Ordering::SeqCst).wrapping_add(0x9E3779B97F4A7C15);
+            x = (x ^ (x >> 30)).wrapping_mul(0xBF58476D1CE4E5B9);
+            x = (x ^ (x >> 27)).wrapping_mul(0x94D049BB133111EB);
+            x ^= x >> 31;
+            let b = x.to_le_bytes();
+            chunk.copy_from_slice(&b[..chunk.len()]);
+        }
+        return len as libc::ssize_t;
+    }
+    libc::syscall(libc::SYS_getrandom, buf, len, flags) as libc::ssize_t
+}
+
+/// Starts the deterministic random stream of a scenario.
+pub fn random_begin_scenario() {
+    RAND_EXECS.store(0, Ordering::SeqCst);
+    RAND_STATE.store(0x5EED_5EED_5EED_5EED, Ordering::SeqCst);
+    RAND_ACTIVE.store(true, Ordering::SeqCst);
+}
+
+/// Every simulated execution continues the stream at a position that depends only on its
+/// ordinal number within the scenario.
+fn random_begin_execution() {
+    let k = RAND_EXECS.fetch_add(1, Ordering::SeqCst) + 1;
+    RAND_STATE.store(0x5EED_5EED_5EED_5EED ^ k.wrapping_mul(0xD6E8FEB86659FD93), Ordering::SeqCst);
+}
+
 #[derive(Clone, Debug, Default, Serialize, Deserialize, PartialEq)]
 pub struct ClockSpec {
     pub sec: i64,
@@ -168,6 +212,8 @@ pub struct World {
     pub stdin_pos: usize,
     pub stdin_tty: bool,
     pub stdout_tty: bool,
+    /// paths that behave like a FIFO / procfs file: data arrives, but metadata reports size 0
+    pub sizeless: Vec<String>,
     pub stdout: Vec<u8>,
     pub stderr: Vec<u8>,
     pub argv: Vec<String>,
@@ -684,7 +730,7 @@ pub mod simstd {
         pub fn metadata<P: AsRef<::std::path::Path>>(path: P) -> io::Result<Metadata> {
             let path = path.as_ref().to_string_lossy().into_owned();
             with_world(|w| match w.fs.get(&path) {
-                Some(v) => Ok(Metadata { len: v.len() as u64 }),
+                Some(v) => Ok(Metadata { len: if w.sizeless.contains(&path) { 0 } else { v.len() as u64 } }),
                 None => Err(io::Error::from_raw_os_error(libc::ENOENT)),
             })
         }
@@ -1104,6 +1150,9 @@ pub struct Exec {
     /// standard output is a terminal (only what `atty` / `IsTerminal` report changes)
     #[serde(default)]
     pub stdout_tty: bool,
+    /// paths that behave like a FIFO (`/dev/stdin`, process substitution): metadata says size 0
+    #[serde(default)]
+    pub sizeless: Vec<String>,
 }
 
 #[derive(Clone, Debug)]
@@ -1134,7 +1183,27 @@ impl Outcome {
     }
 }
 
+/// Variables that are always cleared unless the execution sets them; any other variable an
+/// execution sets is removed again before the next one.
 const ENV_KEYS: [&str; 9] = ["TZ", "LANG", "LC_ALL", "LC_TIME", "NO_COLOR", "CLICOLOR", "CLICOLOR_FORCE", "TERM", "COLUMNS"];
+static EXTRA_ENV: Mutex<Vec<String>> = Mutex::new(Vec::new());
+
+/// Installs exactly the simulated environment `env` (process-global; one execution at a time).
+pub fn install_env(env: &BTreeMap<String, String>) {
+    let mut extra = EXTRA_ENV.lock().unwrap_or_else(|e| e.into_inner());
+    for k in extra.drain(..) {
+        std::env::remove_var(k);
+    }
+    for k in ENV_KEYS {
+        std::env::remove_var(k);
+    }
+    for (k, v) in env {
+        std::env::set_var(k, v);
+        if !ENV_KEYS.contains(&k.as_str()) {
+            extra.push(k.clone());
+        }
+    }
+}
 
 thread_local! {
     static PANIC_MSG: std::cell::RefCell<Option<String>> = const { std::cell::RefCell::new(None) };
@@ -1165,12 +1234,7 @@ pub fn install_panic_hook() {
 /// against file system `fs`; returns what a parent process would observe.
 pub fn execute(fs: &mut Fs, ex: &Exec, entry: fn()) -> Outcome {
     // environment (process-global; this worker runs one execution at a time)
-    for k in ENV_KEYS {
-        match ex.env.get(k) {
-            Some(v) => std::env::set_var(k, v),
-            None => std::env::remove_var(k),
-        }
-    }
+    install_env(&ex.env);
     let (stdin, tty) = match &ex.stdin {
         StdinSpec::Tty => (Vec::new(), true),
         StdinSpec::Pipe(s) => (s.clone().into_bytes(), false),
@@ -1181,6 +1245,7 @@ pub fn execute(fs: &mut Fs, ex: &Exec, entry: fn()) -> Outcome {
         stdin,
         stdin_tty: tty,
         stdout_tty: ex.stdout_tty,
+        sizeless: ex.sizeless.clone(),
         argv: ex.argv.clone(),
         plan: ex.io.clone(),
         rng: ex.io.seed ^ 0xA5A5_5A5A_DEAD_BEEF,
@@ -1188,6 +1253,7 @@ pub fn execute(fs: &mut Fs, ex: &Exec, entry: fn()) -> Outcome {
     };
     *WORLD.lock().unwrap_or_else(|e| e.into_inner()) = Some(world);
     simstd::io::reset_stdout();
+    random_begin_execution();
     clock_install(&ex.clock);
 
     let (tx, rx) = std::sync::mpsc::channel::<ExecMsg>();
